@@ -1,5 +1,7 @@
 import NibabelModel.Lemmas.C15_Build
 import NibabelModel.Lemmas.C15_Tract
+import NibabelModel.Lemmas.C15_Set
+import NibabelModel.Lemmas.C15_Copy
 /-! Props/C15 — ArraySequence is observationally a list of arrays under any history.
 
   `Inv` (Lemmas/C15.lean) is the storage invariant: every range lies in the written prefix of its
@@ -172,6 +174,32 @@ theorem inv_step {σ σ' : State} (h : Inv σ) (op : Op) (hs : step σ op = .ok 
           cases hs
           exact (setMany_inv _ els h ht (fun _ hr => mem_of_filterMap_get hr) hm).1
         · cases hs
+    · cases hs
+  case setIdxSeq t idx v =>
+    split at hs
+    · rename_i hc
+      split at hs
+      · cases hs
+      · exact (setSeq_spec_partial h hc.1 hc.2 (fun _ hr => mem_of_filterMap_get hr) hs).1
+    · cases hs
+  case setIdxList t idx els =>
+    split at hs
+    · rename_i ht
+      split at hs
+      · cases hs
+      · split at hs
+        · rename_i hm
+          cases hs
+          exact (setMany_inv _ els h ht (fun _ hr => mem_of_filterMap_get hr) hm).1
+        · cases hs
+    · cases hs
+  case setIdxNum t idx k =>
+    split at hs
+    · rename_i ht
+      split at hs
+      · cases hs
+      · cases hs
+        exact (opLoop_inplace_inv _ (fill_length k) _ h ht (fun _ hr => mem_of_filterMap_get hr)).1
     · cases hs
   case iop t code k =>
     split at hs
@@ -471,7 +499,7 @@ example : let σ := run State.init [.new 0, .extend 0 1 1 [[[1],[2]], [[3]], [[4
 
 /-- operations that do not write through an existing array -/
 def Op.noWrite : Op → Bool
-  | .setInt .. | .setSlice .. | .iop .. | .iopSeq .. | .iopF .. => false
+  | .setInt .. | .setSlice .. | .iop .. | .iopSeq .. | .iopF .. | .setIdxSeq .. | .setIdxList .. | .setIdxNum .. => false
   | _ => true
 
 /-- `_check_shape` + the element-by-element row counts, on two lists of arrays -/
@@ -989,6 +1017,32 @@ theorem step_len {σ σ' : State} (h : Inv σ) (op : Op) (hs : step σ op = .ok 
           rw [(setMany_inv _ els h ht (fun _ hr => mem_of_filterMap_get hr) hm).2]; omega
         · cases hs
     · cases hs
+  case setIdxSeq t idx v =>
+    split at hs
+    · rename_i hc
+      split at hs
+      · cases hs
+      · rw [(setSeq_spec_partial h hc.1 hc.2 (fun _ hr => mem_of_filterMap_get hr) hs).2.1]; omega
+    · cases hs
+  case setIdxList t idx els =>
+    split at hs
+    · rename_i ht
+      split at hs
+      · cases hs
+      · split at hs
+        · rename_i hm
+          cases hs
+          rw [(setMany_inv _ els h ht (fun _ hr => mem_of_filterMap_get hr) hm).2]; omega
+        · cases hs
+    · cases hs
+  case setIdxNum t idx k =>
+    split at hs
+    · rename_i ht
+      split at hs
+      · cases hs
+      · cases hs
+        rw [(opLoop_inplace_inv _ (fill_length k) _ h ht (fun _ hr => mem_of_filterMap_get hr)).2]; omega
+    · cases hs
   case iop t code k =>
     split at hs
     · rename_i ht
@@ -1089,6 +1143,14 @@ theorem tinv_step {τ : TState} (h : TInv τ) (op : TOp) : TInv (tstep τ op).1 
       split
       · rename_i τ' hr; exact (tset_spec h hc.1 hc.2 hr).1
       · exact h
+    · exact h
+  case tcopy T =>
+    split
+    · rename_i hT; exact (tcopy_spec h hT).1
+    · exact h
+  case tadd T U w =>
+    split
+    · rename_i hc; exact (tadd_spec h hc.1 hc.2 w).1
     · exact h
 
 /-- … after every tractogram history -/
@@ -1215,5 +1277,220 @@ example : ∃ τ1, tnew (trun TState.init [.seq (.new 0), .seq (.extend 0 1 1 [[
     (growMany 1 1 τ1 [0, 0]).st.contents 5 = [[[10],[20]], [[30]], [[10],[20]], [[30]]] ∧
     (growMany 1 1 τ1 [0, 0]).st.contents 3 = [[[10],[20]], [[30]]] :=
   ⟨_, rfl, by decide, by decide⟩
+
+/-! ### `seq[idx] = other` with `other` an ArraySequence, through any index form (slice of any step, list /
+    range / integer ndarray — permutations, repeats, negative entries —, boolean mask) -/
+
+/-- the decision rule of `seq[idx] = other` in a history: the index is resolved first (IndexError / ValueError
+    of `self._offsets[idx]`), then `setSeq` on the selected ranges (its two count tests: ValueError).
+    (Definitional glue between `step`, which the correspondence compares with the real code, and `setSeq`.) -/
+theorem setIdxSeq_step_iff {σ σ' : State} {t v : Nat} (ht : t < σ.seqs.length) (hv : v < σ.seqs.length) (idx : TIdx) :
+    step σ (.setIdxSeq t idx v) = .ok σ' ↔
+      ∃ pos, idxPos (σ.seqAt t).ranges.length idx = .ok pos ∧
+        setSeq σ t (pos.filterMap (fun i => (σ.seqAt t).ranges[i]?)) v = .ok σ' := by
+  simp only [step, ht, hv, and_self, if_true]
+  cases hp : idxPos (σ.seqAt t).ranges.length idx with
+  | error e => simp
+  | ok pos => simp
+
+/-- `seq[idx] = other` for ANY selection (permuted, repeated) and ANY value (also a view of `seq`'s own
+    buffer): no sequence object changes and no array of a sequence stored in another buffer changes -/
+theorem setSeq_other_buffers_untouched {σ σ'' : State} (h : Inv σ) {t v : Nat} (ht : t < σ.seqs.length)
+    (hv : v < σ.seqs.length) (pos : List Nat)
+    (hs : setSeq σ t (pos.filterMap (fun i => (σ.seqAt t).ranges[i]?)) v = .ok σ'') :
+    σ''.seqs = σ.seqs ∧ ∀ u, (σ.seqAt u).buf ≠ (σ.seqAt t).buf → σ''.contents u = σ.contents u :=
+  (setSeq_spec_partial h ht hv (fun _ hr => mem_of_filterMap_get hr) hs).2
+
+/-- `seq[idx] = other`, `other` stored in another buffer (a fresh sequence, a copy, any view of another
+    sequence — compact or not, permuted or not), the selection `rs` of `seq` without repeats (ANY order: a
+    permutation that keeps the ends, a reversed slice, a mask …) — seen from any live sequence `u`: an array of
+    `u` changes exactly when `u` shares `seq`'s buffer and the array is one of those selected, and then it
+    becomes the array of `other` AT THE SAME POSITION OF THE SELECTION (never the one a block copy in buffer
+    order would give); every other array of every sequence keeps its value. -/
+theorem setSeq_all_or_none {σ σ'' : State} (h : Inv σ) {t v : Nat} (ht : t < σ.seqs.length)
+    (hv : v < σ.seqs.length) (hne : (σ.seqAt v).buf ≠ (σ.seqAt t).buf) {rs : List (Nat × Nat)}
+    (hsub : ∀ r ∈ rs, r ∈ (σ.seqAt t).ranges) (hnd : rs.Nodup)
+    (hs : setSeq σ t rs v = .ok σ'') {u : Nat} (hu : u < σ.seqs.length) :
+    σ''.contents u = (σ.seqAt u).ranges.map (fun q =>
+      if (σ.seqAt u).buf = (σ.seqAt t).buf then
+        match partnerOf rs (σ.seqAt v).ranges q with
+        | some p => (σ.bufAt (σ.seqAt v).buf).slice p.1 p.2
+        | none => (σ.bufAt (σ.seqAt u).buf).slice q.1 q.2
+      else (σ.bufAt (σ.seqAt u).buf).slice q.1 q.2) := by
+  have hspec := setSeq_spec_partial h ht hv hsub hs
+  obtain ⟨hm, he⟩ := setSeq_ok_lens hs
+  have hts := get_seqAt ht
+  have hvs := get_seqAt hv
+  have hus := get_seqAt hu
+  have hsu := seqAt_of_seqs_eq hspec.2.1 u
+  by_cases hb : (σ.seqAt u).buf = (σ.seqAt t).buf
+  · simp only [contents_def, contentsOf, hsu, hb, if_true]
+    apply List.map_congr_left
+    intro q hq
+    rw [he]
+    exact setLoop_slice (σ.seqAt t).buf (σ.seqAt v).buf hne rs (σ.seqAt v).ranges σ
+      (h.bufLt t _ hts) hnd hm
+      (fun r hr => ⟨h.inb t _ hts r (hsub r hr), h.pos t _ hts r (hsub r hr)⟩)
+      (fun x hx => h.inb v _ hvs x hx)
+      q (by have := h.inb u _ hus q hq; rw [hb] at this; exact this) (h.pos u _ hus q hq)
+      (fun r hr => h.cells u t _ _ hus hts hb q hq r (hsub r hr))
+  · rw [hspec.2.2 u hb]
+    simp only [contents_def, contentsOf, hb, if_false]
+
+/-- … in particular the arrays selected then show the arrays of `other`, in the order of the selection -/
+theorem setSeq_selected {σ σ'' : State} (h : Inv σ) {t v : Nat} (ht : t < σ.seqs.length)
+    (hv : v < σ.seqs.length) (hne : (σ.seqAt v).buf ≠ (σ.seqAt t).buf) {rs : List (Nat × Nat)}
+    (hsub : ∀ r ∈ rs, r ∈ (σ.seqAt t).ranges) (hnd : rs.Nodup)
+    (hs : setSeq σ t rs v = .ok σ'') :
+    contentsOf (σ''.bufAt (σ.seqAt t).buf) rs = σ.contents v := by
+  obtain ⟨hm, he⟩ := setSeq_ok_lens hs
+  have hts := get_seqAt ht
+  have hvs := get_seqAt hv
+  have hl : rs.length = (σ.seqAt v).ranges.length := by
+    have := congrArg List.length hm
+    simpa using this
+  have hcell : ∀ r ∈ rs, ∀ r' ∈ rs, eqOrDisj r r' :=
+    fun r hr r' hr' => h.cells t t _ _ hts hts rfl r (hsub r hr) r' (hsub r' hr')
+  have hmap : contentsOf (σ''.bufAt (σ.seqAt t).buf) rs = rs.map (fun q =>
+      match partnerOf rs (σ.seqAt v).ranges q with
+      | some p => (σ.bufAt (σ.seqAt v).buf).slice p.1 p.2
+      | none => (σ.bufAt (σ.seqAt t).buf).slice q.1 q.2) := by
+    simp only [contentsOf]
+    apply List.map_congr_left
+    intro q hq
+    rw [he]
+    exact setLoop_slice (σ.seqAt t).buf (σ.seqAt v).buf hne rs (σ.seqAt v).ranges σ
+      (h.bufLt t _ hts) hnd hm
+      (fun r hr => ⟨h.inb t _ hts r (hsub r hr), h.pos t _ hts r (hsub r hr)⟩)
+      (fun x hx => h.inb v _ hvs x hx)
+      q (h.inb t _ hts q (hsub q hq)) (h.pos t _ hts q (hsub q hq)) (fun r hr => hcell q hq r hr)
+  rw [hmap]
+  have hz := map_partner_zip (fun _ p => (σ.bufAt (σ.seqAt v).buf).slice p.1 p.2)
+    (fun q => (σ.bufAt (σ.seqAt t).buf).slice q.1 q.2) rs (σ.seqAt v).ranges hnd hl
+  refine hz.trans ?_
+  exact zipWith_snd_eq_map (fun p : Nat × Nat => (σ.bufAt (σ.seqAt v).buf).slice p.1 p.2) rs _ hl
+
+/-- `seq[[0, 2, 1, 3]] = X` with unequal element lengths: the selection keeps the first and the last array in
+    place and swaps the two between; `X` is a fresh sequence -/
+example : let σ := run State.init [.new 0, .extend 0 1 1 [[[1],[2]], [[3]], [[4],[5],[6]], [[7]]],
+      .new 0, .extend 1 1 1 [[[10],[20]], [[30],[40],[50]], [[60]], [[70]]]]
+    (σ.seqAt 1).buf ≠ (σ.seqAt 0).buf ∧
+    ([0, 2, 1, 3].filterMap (fun i => (σ.seqAt 0).ranges[i]?)).Nodup ∧
+    (∃ σ', step σ (.setIdxSeq 0 (.fancy [0, 2, 1, 3]) 1) = .ok σ' ∧
+      σ'.contents 0 = [[[10],[20]], [[60]], [[30],[40],[50]], [[70]]]) := by
+  refine ⟨by decide, by decide, _, rfl, by decide⟩
+
+/-! ### `Tractogram.copy()` and `T + U` -/
+
+/-- `T.copy()` is an independent copy: every sequence it holds shows what the original's shows, NO live sequence
+    changes, and every sequence of the copy is stored in an ndarray no older sequence is on -/
+theorem tcopy_is_independent_copy {τ : TState} (h : TInv τ) {T : Nat} (hT : T < τ.tracts.length) :
+    (((tcopy τ T).tractAt τ.tracts.length).members.map (tcopy τ T).st.contents =
+      (τ.tractAt T).members.map τ.st.contents) ∧
+    (∀ u, u < τ.st.seqs.length → (tcopy τ T).st.contents u = τ.st.contents u) ∧
+    (∀ m ∈ ((tcopy τ T).tractAt τ.tracts.length).members, ∀ u, u < τ.st.seqs.length →
+      ((tcopy τ T).st.seqAt u).buf ≠ ((tcopy τ T).st.seqAt m).buf) := by
+  obtain ⟨_, c2, _, _, c5, c6, c7⟩ := tcopy_spec h hT
+  refine ⟨c6, fun u hu => c2.keep u hu (fun hf => hf), ?_⟩
+  intro m hm u hu
+  rw [c7 u hu]
+  have := h.inv.bufLt u _ (get_seqAt hu)
+  have := (c5 m hm).2
+  omega
+
+/-- `T + U` — for ALL operands, empty ones included, also `U = T`, also when the extend raises —: no sequence
+    that was live before changes -/
+theorem tadd_keeps_every_live_sequence {τ : TState} (h : TInv τ) {T U : Nat} (hT : T < τ.tracts.length)
+    (hU : U < τ.tracts.length) (w : Nat) :
+    ∀ u, u < τ.st.seqs.length → (tadd τ T U w).1.st.contents u = τ.st.contents u :=
+  fun u hu => (tadd_spec h hT hU w).2.keep u hu (fun hf => hf)
+
+/-- `add_result_fresh`: the result of `T + U` shares NO ndarray with any sequence that was live before — so with
+    neither operand, nor with what the operands are views of — for ALL operands (an EMPTY `U` such as
+    `Tractogram()` or `T[:0]` included: the result is then still a deep copy, not a view of `T`), whenever `T`
+    has every per-point key of `U`.  (Without that hypothesis the per-point entry of a key `T` lacks is, by
+    `PerArrayDict.extend`, `ArraySequence(other[key])` — a VIEW of `U`'s sequence: only possible when `T` has no
+    rows; the streamlines and the other entries are fresh all the same, not proved here.) -/
+theorem add_result_fresh {τ τ' : TState} (h : TInv τ) {T U : Nat} (hT : T < τ.tracts.length)
+    (hU : U < τ.tracts.length) (w : Nat)
+    (hk : ∀ kf ∈ (τ.tractAt U).dpp, dictGet (τ.tractAt T).dpp kf.1 ≠ none)
+    (hs : tadd τ T U w = (τ', none)) :
+    ∀ m ∈ (τ'.tractAt τ.tracts.length).members, ∀ u, u < τ.st.seqs.length →
+      (τ'.st.seqAt u).buf ≠ (τ'.st.seqAt m).buf := by
+  obtain ⟨c1, c2, c3, c4, c5, _, c7⟩ := tcopy_spec h hT
+  have hdpp : ((tcopy τ T).tractAt τ.tracts.length).dpp = (τ.tractAt T).dpp.map (fun kf =>
+      (kf.1, τ.st.seqs.length + (dedupNat (τ.tractAt T).members).idxOf kf.2)) := by
+    simp only [TState.tractAt, tcopy_tracts, List.getD_eq_getElem?_getD,
+      List.getElem?_append_right (Nat.le_refl _), Nat.sub_self, List.getElem?_cons_zero, Option.getD_some]
+  have hk1 : ∀ kf ∈ ((tcopy τ T).tractAt U).dpp,
+      dictGet ((tcopy τ T).tractAt τ.tracts.length).dpp kf.1 ≠ none := by
+    intro kf hkf
+    rw [c4 U hU] at hkf
+    rw [hdpp, dictGet_map_snd (fun f => τ.st.seqs.length + (dedupNat (τ.tractAt T).members).idxOf f)]
+    have := hk kf hkf
+    cases hg : dictGet (τ.tractAt T).dpp kf.1 with
+    | none => exact absurd hg this
+    | some x => simp
+  obtain ⟨g, gm⟩ := textend_growsIn (τ := tcopy τ T) (T := τ.tracts.length) (U := U) w (by omega) hk1
+  unfold tadd at hs
+  split at hs
+  · rename_i τ2 heq
+    simp only [Prod.mk.injEq, and_true] at hs
+    subst hs
+    rw [heq] at g gm
+    dsimp only at g gm
+    intro m hm u hu
+    rw [gm] at hm
+    have hm5 := c5 m hm
+    have hu' : ¬ (u ∈ ((tcopy τ T).tractAt τ.tracts.length).members) := fun hmem => by
+      have := (c5 u hmem).1; omega
+    rw [g.others u hu', c7 u hu]
+    have hlt := h.inv.bufLt u _ (get_seqAt hu)
+    have hheap : τ.st.heap.length ≤ (tcopy τ T).st.heap.length := by
+      rw [tcopy_st, cloneState_heap_length]; omega
+    rcases g.buf m hm with hb | hb
+    · rw [hb]; omega
+    · omega
+  · simp at hs
+
+/-- a write through a sequence stored in an ndarray of its own (a member of `T + U` or of `T.copy()`) — an
+    element assignment, or in-place arithmetic — changes no sequence stored elsewhere: with `add_result_fresh`,
+    editing the result of `T + U` never rewrites `T`, `U` or the tractograms they were taken from -/
+theorem write_through_fresh_sequence_keeps_others {σ : State} (h : Inv σ) {m : Nat} (hm : m < σ.seqs.length)
+    {u : Nat} (hu : u < σ.seqs.length) (hne : (σ.seqAt u).buf ≠ (σ.seqAt m).buf) :
+    (∀ r ∈ (σ.seqAt m).ranges, ∀ el : Elem, el.length = r.2 →
+      (setRange σ (σ.seqAt m).buf r el).contents u = σ.contents u) ∧
+    (∀ (f : Elem → Elem) σ', iop f σ m = some σ' → σ'.contents u = σ.contents u) := by
+  constructor
+  · intro r hr el hl
+    rw [setRange_contents h hm hr hl hu]
+    simp only [hne, false_and, if_false, contents_def, contentsOf]
+  · intro f σ' hs
+    unfold iop at hs
+    simp only at hs
+    split at hs
+    · cases hs
+    · cases hs
+      obtain ⟨fs, _, fb⟩ := opLoop_frame f (σ.seqAt m).buf (σ.seqAt m).ranges σ
+      refine contents_congr (u := u) ?_ ?_
+      · rw [seqAt_of_seqs_eq fs]
+      · intro r _
+        rw [seqAt_of_seqs_eq fs, fb _ hne]
+
+/-- `a + Tractogram()` (an EMPTY right operand) and `a + a`: the result is fresh and editing it leaves `a` alone -/
+example : let τ := trun TState.init [.seq (.new 0), .seq (.extend 0 1 1 [[[1],[2]], [[3]]]), .seq (.new 0),
+      .seq (.extend 1 1 1 [[[10],[20]], [[30]]]), .tnew (some 0) [(0, 1)] false 1, .tnew none [] false 1]
+    (∀ kf ∈ (τ.tractAt 1).dpp, dictGet (τ.tractAt 0).dpp kf.1 ≠ none) ∧
+    (∃ τ', tadd τ 0 1 1 = (τ', none) ∧ (τ'.tractAt 2).members = [5, 6] ∧
+      (τ'.st.seqAt 5).buf ≠ (τ'.st.seqAt 2).buf ∧ (τ'.st.seqAt 5).buf ≠ (τ'.st.seqAt 0).buf ∧
+      ((trun τ' [.seq (.setInt 5 0 [[7],[7]])]).st.contents 2 = [[[1],[2]], [[3]]]) ∧
+      ((trun τ' [.seq (.setInt 5 0 [[7],[7]])]).st.contents 5 = [[[7],[7]], [[3]]])) ∧
+    (∃ τ', tadd τ 0 0 1 = (τ', none) ∧ τ'.st.contents 5 = [[[1],[2]], [[3]], [[1],[2]], [[3]]]) := by
+  refine ⟨by decide, ⟨_, rfl, by decide, by decide, by decide, by decide, by decide⟩, ⟨_, rfl, by decide⟩⟩
+
+example : let τ := trun TState.init [.seq (.new 0), .seq (.extend 0 1 1 [[[1],[2]], [[3]]]),
+      .tnew (some 0) [(0, 0)] false 1]
+    (((tcopy τ 0).tractAt 1).members = [3, 4]) ∧ ((tcopy τ 0).st.seqAt 3).buf = ((tcopy τ 0).st.seqAt 4).buf ∧
+    ((tcopy τ 0).st.seqAt 3).buf ≠ ((tcopy τ 0).st.seqAt 1).buf := by decide
 
 end Nb.C15
